@@ -22,7 +22,7 @@ from .corpus import CORPUS
 from .tok import Decl
 
 PROP = "C05"
-CORPUS_GRAMMARS = ["g1", "g2", "p1", "p2", "p3", "c1", "c2", "c3", "o1", "o2", "a1", "a2", "a3", "j1", "k1", "k2", "v2", "kc", "k3", "k4", "o3", "a4", "g4"]
+CORPUS_GRAMMARS = ["g1", "g2", "p1", "p2", "p3", "c1", "c2", "c3", "o1", "o2", "a1", "a2", "a3", "j1", "k1", "k2", "v2", "kc", "k3", "k4", "o3", "a4", "g4", "x1", "x4", "f1", "f3", "k5", "k6", "c5", "c7", "c8"]
 LEMMAS = ["remove", "set_scope", "take_flag", "take_arg", "take_arg_adjacent", "take_pos", "take_cmd"]
 WRAPS = ["optional", "optional_catch", "many", "some", "count", "last", "fallback", "fallback_with"]
 LOOPS = ("many", "some", "count", "last")
@@ -45,6 +45,10 @@ def u32_sources(v, acc):
                 acc.append(e.arg(0))
             else:
                 stack.extend(e.children())
+    elif t is SymStr:
+        # OsString-valued grammars (conv="string"): the value is the item's text itself
+        if is_sym(v.term):
+            acc.append(v.term)
     elif t is tuple:
         for x in v:
             u32_sources(x, acc)
@@ -106,6 +110,9 @@ class CorpusOracle(TokOracle):
             report("value-delivered-twice", words, (cls, payload), ["ok", "each value item feeds one field"])
             return
         allowed = set(v.get_id() for v in value_ids)
+        if getattr(g, "conv", "u32") == "string":
+            # `any` is handed the whole text of a named item, not just a value
+            allowed |= set(w.os.get_id() for w in words if getattr(w, "os", None) is not None and is_sym(w.os))
         if any(i not in allowed for i in ids):
             report("value-not-from-an-item", words, (cls, payload), ["ok", "values come from items"])
             return
